@@ -162,3 +162,17 @@ def segments_from_cuts(total, cuts):
         last = c
     segs.append(total - last)
     return segs
+
+
+def system_bytes(rng, base, p=0.08):
+    """Transaction ids for injected messages: a counter from `base`, interspersed (each once) with the boundary values of the
+    32-bit field - 0 in particular is a legal id that "not supplied" tests tend to swallow."""
+    special = [0, 1, 0x7FFFFFFF, 0x80000000, 0xFFFFFFFF, 0xFFFFFFFE, 0x100, 0xFFFF, 0x10000]
+    rng.shuffle(special)
+    n = base
+    while True:
+        if special and rng.random() < p:
+            yield special.pop()
+        else:
+            n += 1
+            yield n & 0xFFFFFFFF
